@@ -73,7 +73,8 @@ def cases(tier, seed):
     out.append({"part": "B", "family": FAMILIES[i % len(FAMILIES)], "start": start, "finish": finish,
                 "exponent": rnd.choice([0.5, 1.0, 3.0]), "update_freq": rnd.choice([1, 1, 2, 3]),
                 "freq_type": rnd.choice(["step", "epoch"]), "initial": rnd.choice([0, 0, 1, 4]),
-                "epochs": rnd.randint(1, 6), "steps": rnd.randint(1, 5), "use_ste": rnd.choice([True, False])})
+                "epochs": rnd.randint(1, 6), "steps": rnd.randint(1, 5), "use_ste": rnd.choice([True, False]),
+                "freeze": rnd.random() < 0.3})
   # part F: the same trace specification observed through a real model.fit (hook order is Keras' own)
   nf = 12 if tier == "quick" else 120
   for i in range(nf):
@@ -290,6 +291,14 @@ def run_b(case, ctx):
       exponent=case["exponent"], use_ste=case["use_ste"]))
   if not ok:
     return
+  if case.get("freeze"):
+    # a frozen layer (trainable = False, e.g. a pre-trained backbone) still computes with its quantizers:
+    # "every quantizer of the model that has the knob" includes them
+    for l in model.layers:
+      if l.weights:
+        l.trainable = False
+        ctx.count("B.histories_with_frozen_layer")
+        break
   cb.set_model(model)
   everything = knob_quantizers(model)
   ctx.count("B.histories")
